@@ -484,6 +484,42 @@ fn generate(thorough: bool) -> Generated {
             }
         }
     }
+    // attributes nested in attribute bodies, each body holding two items (an implicit record),
+    // spelled with and without the braces of that record at every level pattern: all spellings of
+    // one depth are one value. Depth matters on its own: state kept per open attribute (a stack)
+    // is exercised only by nesting, not by any of the short texts above.
+    let max_depth = if thorough { 24 } else { 12 };
+    for d in 1..=max_depth {
+        let patterns: Vec<Box<dyn Fn(usize) -> bool>> = vec![
+            Box::new(|_| false),
+            Box::new(|_| true),
+            Box::new(|l| l % 2 == 0),
+            Box::new(|l| l % 2 == 1),
+            Box::new(|l| l == 1),
+            Box::new(move |l| l == d),
+            Box::new(|l| l <= 8),
+            Box::new(|l| l > 8),
+            Box::new(|l| l % 3 == 0),
+        ];
+        for pat in &patterns {
+            let mut text = String::new();
+            for l in 1..=d {
+                text.push_str(&format!("@a{}(", l));
+                if pat(l) {
+                    text.push('{');
+                }
+            }
+            text.push_str("0");
+            for l in (1..=d).rev() {
+                text.push_str(&format!(",{}", l));
+                if pat(l) {
+                    text.push('}');
+                }
+                text.push(')');
+            }
+            it.add(text, 0);
+        }
+    }
     let n_primary = it.list.len();
 
     // single-edit mutations of the base texts
